@@ -82,6 +82,7 @@ def gen_spec(seed, index, tier):
         calculator=rng.choice(CALCS),
         is_symmetry=rng.random() < 0.9,
         value_scale=rng.choice([1.0, 1.0, 1.0, 1.0, 1e4, 1e7]),
+        pmat_none=rng.random() < 0.15,
     )
     if obj["dataset"] is None and obj["fc"] is None:
         obj["fc"] = "full"
@@ -189,7 +190,9 @@ def _build(w, obj, scale=1.0, nac_scale=1.0):
     from phonopy.interface.calculator import get_default_physical_units
 
     units = get_default_physical_units(obj["calculator"])
-    ph = Phonopy(_unitcell(w, obj), supercell_matrix=w.supercell_matrix, primitive_matrix=w.primitive_matrix, calculator=obj["calculator"],
+    # an object made without a primitive matrix (the unit cell is the primitive cell, also for centred lattices) must come back as such
+    pmat = None if obj.get("pmat_none") else w.primitive_matrix
+    ph = Phonopy(_unitcell(w, obj), supercell_matrix=w.supercell_matrix, primitive_matrix=pmat, calculator=obj["calculator"],
                  factor=units["factor"], is_symmetry=obj["is_symmetry"], log_level=0)
     # magnitude of forces / force constants / energies: fixed-decimal formats must carry large values too (field widths)
     vs = float(obj.get("value_scale", 1.0))
